@@ -176,6 +176,10 @@ Definition len {A} (l : list A) : Z := Z.of_nat (List.length l).
 Fixpoint repeat_null (n : nat) : list value :=
   match n with O => [] | S k => VNull :: repeat_null k end.
 
+(* access.go:113 maxArrayBackfill: Put appends at most this many nulls to reach
+   an index beyond the end of an array *)
+Definition max_array_backfill : Z := 1500000.
+
 (* bsonkit.put(v, path, value, prepend, set): None = (_, false); Some (old, v')
    where v' is what `set` receives for this position (VMissing = removed).
    `value = VMissing` is Unset. *)
@@ -238,7 +242,7 @@ Fixpoint put (v : value) (p : path) (nv : value) (prepend : bool) {struct v}
                     Some (old, VArr (replace_nth a index (if is_missing x' then VNull else x')))
                 end
               else if is_missing nv then None
-              else if 100000000 <? index then None (* unmodelled: Go would allocate; excluded from cases *)
+              else if max_array_backfill <? index - len a then None   (* access.go:238 (since /repo ba43a99) *)
               else
                 match put_new rest nv with
                 | None => None
